@@ -545,12 +545,18 @@ func (x *TopicsIndex) scanMessages(filter string, d int, n *particle, pks []pack
 
 	key, hasNext := isolateParticle(filter, d)
 	if key == "+" || key == "#" || d == -1 {
+		if key == "#" && n.retainPath != "" { // a trailing # also matches the parent level [MQTT-4.7.1-2]
+			if pk, ok := x.Retained.Get(n.retainPath); ok {
+				pks = append(pks, pk)
+			}
+		}
+
 		for _, adjacent := range n.particles.getAll() {
-			if d == 0 && adjacent.key == SysPrefix {
+			if d == 0 && strings.HasPrefix(adjacent.key, "$") { // top level wildcards don't match $ topics [MQTT-4.7.2-1]
 				continue
 			}
 
-			if !hasNext {
+			if !hasNext && key != "#" { // below a # every particle adds its own message (above)
 				if adjacent.retainPath != "" {
 					if pk, ok := x.Retained.Get(adjacent.retainPath); ok {
 						pks = append(pks, pk)
